@@ -47,7 +47,7 @@ def run_companion(run, keys, functions):
     for key in keys:
         if key in CORPORA:
             corpus = CORPORA[key](run.tier, run.seed)
-        elif key in registry and not key.startswith("vf.contracts.laws") and not getattr(registry[key], "opaque", None):
+        elif key in registry and not getattr(registry[key], "opaque", None):
             corpus = contract_rt.auto_corpus(registry[key])  # (contracts over opaque calls have no CPython counterpart of their log)
         else:
             continue
